@@ -48,6 +48,20 @@ pub fn pool<G: Cv>(env: &Env<G>, seed: u64) -> Vec<Inst<G>> {
         let pr = program::prove::<G>(&prog, &env.pc, &env.bp, seed, "c07", Dev::Witness { idx: 1, delta: G::ScalarField::one() });
         out.push(mk("invalid/bad-witness", &prog, &pr.commitments, &pr.proof.expect("proof")));
     }
+    // invalid members of gate-free circuits (a batch made only of gate-free circuits has padded size 1 everywhere)
+    {
+        let prog = Program::parse("C Kb").unwrap();
+        let pr = program::prove::<G>(&prog, &env.pc, &env.bp, seed, "c07", Dev::Witness { idx: 0, delta: G::ScalarField::one() });
+        out.push(mk("invalid/0gates-bad-witness", &prog, &pr.commitments, &pr.proof.expect("proof")));
+        let pr = program::prove::<G>(&prog, &env.pc, &env.bp, seed, "c07", Dev::None);
+        let bytes = pr.proof.expect("proof");
+        let parts = Parts::<G>::parse(&bytes).unwrap();
+        for (sname, sign) in [("+", true), ("-", false)] {
+            let mut p = parts.clone();
+            p.b += if sign { G::ScalarField::one() } else { -G::ScalarField::one() };
+            out.push(mk(&format!("forged/0gates/b{}1", sname), &prog, &pr.commitments, &p.to_bytes()));
+        }
+    }
     // correlated pairs on one valid proof
     let (prog, comms, bytes) = first.unwrap();
     let parts = Parts::<G>::parse(&bytes).unwrap();
